@@ -23,12 +23,12 @@ import (
 
 // HCase: a struct type with two tag sets and a history of Unpack calls.
 type HCase struct {
-	T     *gen.TD `json:"t"`             // names, flags and validators under `config` / `validate`
-	Alt   *gen.TD `json:"alt,omitempty"` // the same Go structure with the names, flags and validators under `alt` / `strict` (nil: no second tag sets)
+	T   *gen.TD `json:"t"`             // names, flags and validators under `config` / `validate`
+	Alt *gen.TD `json:"alt,omitempty"` // the same Go structure with the names, flags and validators under `alt` / `strict` (nil: no second tag sets)
 	// dynamic types of the typed values the interfaces of the pre-filled values hold (as in Case); they carry tags
 	// under `config` / `validate` only
-	Dyn []*gen.TD `json:"dyn,omitempty"`
-	Steps []Step  `json:"steps"`
+	Dyn   []*gen.TD `json:"dyn,omitempty"`
+	Steps []Step    `json:"steps"`
 }
 
 // Step is one Unpack call.
@@ -43,6 +43,27 @@ type Step struct {
 	SameCfg bool      `json:"samecfg,omitempty"` // Cfg equals the previous step's: unpack the same *Config object again
 	VarExp  bool      `json:"varexp,omitempty"`
 	Policy  int       `json:"policy,omitempty"`
+	// a list policy given for one field by option: Field{Merge,Replace,Append,Prepend}Values(FieldName), FieldName being
+	// the name the call reads a top-level field under ("" = no such option)
+	FieldPol  string `json:"fieldpol,omitempty"` // merge | replace | append | prepend
+	FieldName string `json:"fieldname,omitempty"`
+}
+
+func (s *Step) fieldOption() (ucfg.Option, string) {
+	if s.FieldName == "" {
+		return nil, ""
+	}
+	switch s.FieldPol {
+	case "merge":
+		return ucfg.FieldMergeValues(s.FieldName), fmt.Sprintf(" FieldMergeValues(%q)", s.FieldName)
+	case "replace":
+		return ucfg.FieldReplaceValues(s.FieldName), fmt.Sprintf(" FieldReplaceValues(%q)", s.FieldName)
+	case "append":
+		return ucfg.FieldAppendValues(s.FieldName), fmt.Sprintf(" FieldAppendValues(%q)", s.FieldName)
+	case "prepend":
+		return ucfg.FieldPrependValues(s.FieldName), fmt.Sprintf(" FieldPrependValues(%q)", s.FieldName)
+	}
+	return nil, ""
 }
 
 func (s *Step) sels() (ts, vs int) { return tagSel(s.Tag), vtagSel(s.VTag) }
@@ -72,6 +93,9 @@ func (c *HCase) describe(upto int, typ reflect.Type) string {
 		_, text := tagOptions(s.Tag, s.VTag, s.VFirst)
 		if s.Sep {
 			text += ` PathSep(".")`
+		}
+		if _, ft := s.fieldOption(); ft != "" {
+			text += ft
 		}
 		pre := reflect.New(typ)
 		c.T.Set(pre.Elem(), s.Pre)
@@ -151,7 +175,12 @@ func runHist(c HCase, r *runlog.R) error {
 			extra = append(extra, ucfg.PathSep("."))
 			text += ` PathSep(".")`
 		}
-		cl := &call{T: view, Pre: st.Pre, Cfg: st.Cfg, VarExp: st.VarExp, Policy: st.Policy, Dyn: dyn, reg: reg, extra: extra, extraText: text, realT: realT}
+		fopt, ftext := st.fieldOption()
+		if fopt != nil {
+			extra = append(extra, fopt) // (after PathSep, which the option reads)
+			text += ftext
+		}
+		cl := &call{fieldPolicy: fopt != nil, T: view, Pre: st.Pre, Cfg: st.Cfg, VarExp: st.VarExp, Policy: st.Policy, Dyn: dyn, reg: reg, extra: extra, extraText: text, realT: realT}
 		over := st.Over && i > 0 && !prev.discarded && prev.unpacked
 		if over {
 			realPrev, twinPrev := prev.real, prev.twin
@@ -200,6 +229,7 @@ func runHist(c HCase, r *runlog.R) error {
 		rec.ClassIf(over, "history: a call unpacks over the result of the previous call")
 		rec.ClassIf(sameCfg, "history: a call unpacks the configuration object of the previous call again")
 		rec.ClassIf(st.Sep, "option PathSep given")
+		rec.ClassIf(fopt != nil, "option Field...Values given: "+st.FieldPol)
 		rec.Class("option StructTag: " + map[string]string{"": "not given", "config": "the default, explicitly", "alt": "the second tag set", "none": "a tag name no field has", "empty": "the empty tag name"}[st.Tag])
 		rec.Class("option ValidatorTag: " + map[string]string{"": "not given", "validate": "the default, explicitly", "strict": "the second tag set", "none": "a tag name no field has", "empty": "the empty tag name"}[st.VTag])
 		rec.ClassIf(st.VFirst && st.Tag != "" && st.VTag != "", "options: ValidatorTag before StructTag")
@@ -312,7 +342,7 @@ func genHist(t *rapid.T) HCase {
 			st.Tag = c.Steps[i-1].Tag // the same names, another validator tag
 		}
 		if rapid.IntRange(0, 3).Draw(t, "haspolicy") == 0 {
-			st.Policy = rapid.IntRange(1, 3).Draw(t, "policy")
+			st.Policy = rapid.IntRange(1, 4).Draw(t, "policy")
 		}
 		if rapid.IntRange(0, 5).Draw(t, "zero") != 0 || (ifaces && rapid.Bool().Draw(t, "ifzero")) {
 			st.Pre = gen.GenTV(t, cfg, c.T, false)
@@ -347,6 +377,20 @@ func genHist(t *rapid.T) HCase {
 				g.entries(sh, st.Cfg, st.Pre)
 			default:
 				st.Cfg = g.list(sh, false, st.Pre)
+			}
+		}
+		if !coll && rapid.IntRange(0, 4).Draw(t, "fieldpol") == 0 {
+			// a list policy by option for one top-level field, under the name this call reads it
+			ts, vs := st.sels()
+			var names []string
+			for _, f := range makeView(c.T, c.Alt, ts, vs).Fields {
+				if !isInline(&f) {
+					names = append(names, f.ConfigName())
+				}
+			}
+			if len(names) > 0 {
+				st.FieldName = rapid.SampledFrom(names).Draw(t, "fieldname")
+				st.FieldPol = rapid.SampledFrom([]string{"append", "prepend", "replace", "merge"}).Draw(t, "fieldpolv")
 			}
 		}
 		c.Steps = append(c.Steps, st)
